@@ -80,3 +80,26 @@ Fixpoint descendants (n : enode) : list enode :=
 
 Definition ts_closeb' (tol : Q) (a b : option ts) : bool :=
   match a, b with Some x, Some y => ts_closeb tol x y | None, None => true | _, _ => false end.
+
+(* ------------------------------------------------------------------ what is drawn: the draw list of a subtree *)
+(* render.rs render_node / render_group / render_nodes, transforms only: a leaf is drawn under the current transform, a group
+   pre-concats its own transform for its children (isolation, opacity, clip, mask, filters are C14/C15/C16's business and
+   apply to the same list).  `prim` identifies the leaf. *)
+Inductive dnode := DLeaf (prim : N) | DGroup (t : ts) (ch : list dnode).
+Fixpoint draws (cur : ts) (n : dnode) : list (ts * N) :=
+  match n with
+  | DLeaf p => [(cur, p)]
+  | DGroup t ch => flat_map (draws (ts_concat cur t)) ch
+  end.
+(* the full rendering draws the node's subtree under the product of its ancestors' transforms `anc`; resvg::render_node hands
+   render::render_node the transform  tr * translate(-box origin) * parent_ts *)
+Definition full_draws (anc : ts) (n : dnode) : list (ts * N) := draws anc n.
+Definition export_draws (tr : ts) (b : box) (parent : ts) (n : dnode) : list (ts * N) :=
+  draws (ts_concat (ts_concat tr (from_translate (- bx0 b) (- by0 b))) parent) n.
+(* pointwise comparison of draw lists: same leaves in the same order, transforms equal as rational matrices *)
+Fixpoint draws_eq (a b : list (ts * N)) : Prop :=
+  match a, b with
+  | [], [] => True
+  | (t1, p1) :: r1, (t2, p2) :: r2 => ts_eq t1 t2 /\ p1 = p2 /\ draws_eq r1 r2
+  | _, _ => False
+  end.
